@@ -70,6 +70,45 @@ func vfloats(args []string) error {
 		lits = append(lits, strconv.FormatFloat(f, 'e', -1, 64), strconv.FormatFloat(f, 'e', 16+r.Intn(24), 64))
 		lits = append(lits, fmt.Sprintf("%d.%de%d", r.Intn(10), r.Int63(), r.Intn(600)-300))
 	}
+	// plain decimals and small exponents by NUMBER OF SIGNIFICANT DIGITS (1..25): the families that fast paths single out
+	// (mantissa below / above 2^53, 15-16-17 and 19-20 digits, powers of ten up to 22 and 22+15), the decimal point at every
+	// place incl. leading zeros, odd and even last digits, leading 9s
+	per := *n/20 + 8
+	for D := 1; D <= 25; D++ {
+		for k := 0; k < per; k++ {
+			dg := make([]byte, D)
+			for j := range dg {
+				dg[j] = byte('0' + r.Intn(10))
+			}
+			switch k % 4 {
+			case 0:
+				dg[0] = '9'
+			case 1:
+				dg[0] = byte('1' + r.Intn(9))
+				dg[D-1] = byte('1' + 2*r.Intn(5)) // odd
+			default:
+				dg[0] = byte('1' + r.Intn(9))
+			}
+			ds := string(dg)
+			sign := ""
+			if k%5 == 0 {
+				sign = "-"
+			}
+			for _, f := range []int{1 + r.Intn(D), D, D + r.Intn(9), 1, D - 1} { // digits after the point
+				if f <= 0 {
+					continue
+				}
+				if f < D {
+					lits = append(lits, sign+ds[:D-f]+"."+ds[D-f:])
+				} else {
+					lits = append(lits, sign+"0."+strings.Repeat("0", f-D)+ds)
+				}
+			}
+			e := r.Intn(61) - 30
+			lits = append(lits, fmt.Sprintf("%s%se%d", sign, ds, e), fmt.Sprintf("%s%s.0E%+d", sign, ds, e/2),
+				fmt.Sprintf("%s%s.%se%d", sign, ds[:1], ds[1:]+"5", r.Intn(45)-22))
+		}
+	}
 	rep := run.NewReport()
 	ff, err := os.Create(*rec)
 	if err != nil {
